@@ -33,8 +33,18 @@ DIRS = ["", "w1", "w1/w2", "w2", ""]
 
 def strategy(tier):
     big = tier == "thorough"
-    return gen.wellformed(max_targets=10 if big else 6, max_files=14 if big else 9, wds=WDS, dirs=DIRS, nb=3,
-                          spellings=(0, 1, 2, 3, 4, 5, 6), min_targets=2).map(lambda d: {"desc": d})
+    base = gen.wellformed(max_targets=10 if big else 6, max_files=14 if big else 9, wds=WDS, dirs=DIRS, nb=3,
+                          spellings=(0, 1, 2, 3, 4, 5, 6, 7), min_targets=2)
+
+    @st.composite
+    def with_relwd(draw):
+        d = draw(base)
+        # some targets get their working directory as a path relative to the invoking directory (API tier only;
+        # the CLI tier always hands absolute working directories to gwf)
+        flags = [draw(st.sampled_from([False, False, True])) for _ in d["targets"]]
+        return {"desc": d, "relwd": flags}
+
+    return with_relwd()
 
 
 def info_tier(desc, R):
@@ -84,8 +94,12 @@ def run_case(case):
     desc = case["desc"]
     R = model.Resolved(desc)
     viols, labels = [], set()
+    api_desc = desc
+    if any(case.get("relwd", [])):
+        api_desc = dict(desc, targets=[dict(t, relwd=bool(f)) for t, f in zip(desc["targets"], case["relwd"])])
+        labels.add("relative-working-dir")
     try:
-        graph, _ = api.build_graph(desc)
+        graph, _ = api.build_graph(api_desc)
     except Exception as exc:  # noqa: BLE001
         return CaseResult([Violation({"kind": "exception", "type": type(exc).__name__},
                                      f"valid workflow rejected: {type(exc).__name__}: {exc}")], False, ["exception"])
